@@ -61,6 +61,16 @@ def gen_cases(chk):
                 cfg = "szMode=%s;psnr=%s;normErr=%s" % (szm, rng.choice(("60", "90", "35.5")), rng.choice(("0.05", "1.5")))
                 data = "g:%d:%x:%x:%s:%s" % (kind, rng.getrandbits(20), n, dbits(scale), dbits(off))
                 cases.append("meta %x %s %x %s %s %s %s" % (ty, dims, mode, dbits(absb), dbits(rel), cfg, data))
+    # streams produced after a compression of another element type, and through the thread-safe customize entry (no dispatcher)
+    for t in ((1000,), (30, 40), (8, 9, 10)):
+        n = 1
+        for v in t:
+            n *= v
+        dims = ",".join("%x" % v for v in [0] * (5 - len(t)) + list(t))
+        for ty in (0, 1):
+            for flow in ("p%dt" % (1 - ty), "p7t", "p%d" % (1 - ty), "t"):
+                absb = rng.choice((0.1, 1e-3))
+                cases.append("meta %x %s 0 %s %s szMode=SZ_BEST_SPEED g:%d:%x:%x:%s:%s %s" % (ty, dims, dbits(absb), dbits(1e-3), rng.choice((0, 1, 2)), rng.getrandbits(20), n, dbits(1.0), dbits(0.0), flow))
     # the headerless bypass of tiny float/double arrays (listed finding)
     cases.append("meta 0 0,0,0,0,f 0 %s %s szMode=SZ_BEST_SPEED g:0:1:f:%s:0" % (dbits(0.01), dbits(0.01), dbits(1.0)))
     return cases
